@@ -131,6 +131,16 @@ def lookup_param_ok(t: Optional[Term], param: str, cond: Optional[Term] = None, 
                 return False
         return False
     if t[0] == "ite":  # merged form: {} if param is None else param
+        from ..sym import NONE as _NONE, t_cmp as _t_cmp, t_not as _t_not
+        empty = (("dict", ()), ("call", "dict", (), ()))
+
+        def _empty(x):
+            return x in empty or (x[0] == "var" and x[3] in empty)
+        is_none = _t_cmp("is", sym(param), _NONE)
+        if t[1] == is_none and _empty(t[2]) and t[3] == sym(param):
+            return True
+        if t[1] == _t_not(is_none) and t[2] == sym(param) and _empty(t[3]):
+            return True
         return lookup_param_ok(t[2], param) and lookup_param_ok(t[3], param)
     return False
 
@@ -357,3 +367,26 @@ def depth_bound_assumption(model, rep):
         rep.assume("no named traversal bound found in the graph modules (layer traversal unbounded or bounded by a literal)")
     for rel, name, val, uses in found:
         rep.assume(f"no circuit graph is deeper than {name} = {val} layers ({rel}; bounds {uses} traversal loop(s), which stop there with a warning and drop the rest)")
+
+
+def factory_counter(model, owner_module, factory):
+    """``default_factory`` of an identifier field that reads a class-level counter: ``lambda: Cls._counter`` or a named function whose single statement returns
+    that expression.  Returns (class name, counter attribute) or None."""
+    import ast as _ast
+    body = None
+    if isinstance(factory, _ast.Lambda):
+        body = factory.body
+    elif isinstance(factory, (_ast.Name, _ast.Attribute)):
+        name = factory.id if isinstance(factory, _ast.Name) else factory.attr
+        tgt = model.lookup_symbol(owner_module, name) if isinstance(factory, _ast.Name) else None
+        from ..model import FunctionInfo as _FI
+        if tgt is None and isinstance(factory, _ast.Attribute) and isinstance(factory.value, _ast.Name):
+            c = model.maybe_cls(factory.value.id)
+            tgt = c.resolve(name) if c is not None else None
+        if isinstance(tgt, _FI):
+            stmts = [st for st in tgt.node.body if not (isinstance(st, _ast.Expr) and isinstance(st.value, _ast.Constant))]
+            if len(stmts) == 1 and isinstance(stmts[0], _ast.Return) and stmts[0].value is not None:
+                body = stmts[0].value
+    if isinstance(body, _ast.Attribute) and isinstance(body.value, _ast.Name) and model.maybe_cls(body.value.id) is not None:
+        return body.value.id, body.attr
+    return None
